@@ -1,6 +1,8 @@
-NOTES = ("All checks are property-based tests (pgregory.net/rapid v1.3.0 generators and state machines, native go fuzzing in "
-         "the thorough tier where stated) run by ./check against the harness module in harness/, which `replace`s "
-         "github.com/oxia-db/oxia with /repo so every run rebuilds from /repo's working tree. See DESIGN.md.")
+NOTES = ("All checks are property-based tests (pgregory.net/rapid v1.3.0 generators and state machines; fault injection by wrapped "
+         "storage factories, byte-copy kill images, strace-injected SIGKILL and a harness-owned wire / TCP relay) run by ./check against the "
+         "harness module in harness/, which `replace`s github.com/oxia-db/oxia with /repo so every run rebuilds from /repo's working tree. "
+         "Native go fuzzing is not used by any registered command. Open findings: known_findings.json (re-confirmed by scripted tests on every "
+         "run). Seeded regressions and which check catches which: seeded/ and DESIGN.md 0.6. See DESIGN.md section 0 for what was built.")
 
 ENGINES = [
     {"name": "kvx", "path": "harness/kvx", "serves_properties": ["C06", "C07", "C11", "C12", "C13", "C16", "C17"],
